@@ -115,6 +115,8 @@ func GenIngressResources(r *rng.R, w *World) {
 			b.PortName = sp.Name
 		case r.P(0.1):
 			b.PortNum = 7777 // designates nothing
+		case sp.TargetNum != 0 && sp.TargetNum != sp.Port && r.P(0.12):
+			b.PortNum = sp.TargetNum // a number that is only a targetPort of this service port (designates nothing, or another port)
 		default:
 			b.PortNum = sp.Port
 		}
